@@ -53,6 +53,9 @@ type c07Input struct {
 	// bytes of the large ones, at every object boundary and inside the file header
 	Cuts    bool `json:"cuts,omitempty"`
 	CutsMax int  `json:"cutsMax,omitempty"` // at most this many cut points per case
+	// WriteFault k > 0: a first attempt at the same transfer whose k-th write to the destination is
+	// refused (the receive fails there); the transfer that is judged is the repeated one
+	WriteFault int `json:"writeFault,omitempty"`
 }
 
 // c07ZoneMinutes: zone offsets commits are authored in. Whole hours and fractional ones on both sides
@@ -691,6 +694,26 @@ func c07Run(w *c07World) Res {
 		if err != nil {
 			return fail("new-sender")
 		}
+		if in.WriteFault > 0 {
+			fdst := &faultObjStore{Store: dst, b: &writeBudget{left: in.WriteFault - 1}}
+			if s0, err := apiutils.NewObjectSender(w.src, toSend, tts, common, in.MaxSize); err == nil {
+				r0 := apiutils.NewObjectReceiver(fdst, expected, logr.Discard())
+				for k := 0; k < 100000; k++ {
+					buf := bytes.NewBuffer(nil)
+					done, _, err := s0.WriteObjects(buf, nil)
+					if err != nil {
+						break
+					}
+					pr, err := packfile.NewPackfileReader(io.NopCloser(bytes.NewReader(buf.Bytes())))
+					if err != nil {
+						break
+					}
+					if _, err := r0.Receive(pr, nil); err != nil || done {
+						break
+					}
+				}
+			}
+		}
 		recv := apiutils.NewObjectReceiver(dst, expected, logr.Discard())
 		packs := [][][]int{}
 		recvDone := false
@@ -836,6 +859,11 @@ func runC07(ctx *Ctx) {
 		w.in.Cuts = true
 		w.in.CutsMax = 400
 	}
+	// one case in three (not the dishonest-sender ones) is a repeated transfer: a first attempt had one
+	// of its first writes to the destination refused
+	if ctx.Idx%3 == 2 && !w.in.Dishonest && !w.in.Cuts {
+		w.in.WriteFault = 1 + int((seed>>3)%14)
+	}
 	res := c07Run(w)
 	nt := len(w.in.DstBlocks) > 0 || w.in.MaxSize > 0 && w.in.MaxSize < 3000
 	tags := []string{}
@@ -865,6 +893,7 @@ func corpusC07(ctx *Ctx, op string, raw json.RawMessage) {
 		return
 	}
 	w.in.Cuts, w.in.CutsMax = in.Cuts, in.CutsMax
+	w.in.WriteFault = in.WriteFault
 	ctx.Emit("xfer", w.in, c07Run(w), true, append([]string{"corpus"}, c07Tags(w.in)...)...)
 }
 
@@ -872,6 +901,9 @@ func c07Tags(in *c07Input) []string {
 	tags := []string{}
 	if in.Cuts {
 		tags = append(tags, "cut-packfile")
+	}
+	if in.WriteFault > 0 {
+		tags = append(tags, "repeated-after-refused-write")
 	}
 	if in.Negotiated {
 		tags = append(tags, "negotiated")
